@@ -141,7 +141,7 @@ func ruleC09_3(c *Ctx, r *Rep) {
 			}
 		}
 	}
-	r.Floor("C09.3:hooks", len(hooks), 6)
+	r.Floor("C09.3:hooks", len(hooks), 4)
 	_ = n
 }
 
@@ -448,7 +448,7 @@ func ruleC09_4(c *Ctx, r *Rep) {
 		}
 		walk(h)
 	}
-	r.Floor("C09.4:handlers", n, 15)
+	r.Floor("C09.4:handlers", n, 10)
 	// mutations outside a transaction only as the single statement of an operation
 	byOwner := map[string][]*Stmt{}
 	for _, s := range c.EntShape().Stmts {
@@ -519,7 +519,7 @@ func ruleC09_5(c *Ctx, r *Rep) {
 			r.Check("C09.5", "C09.5:error-after-commit@"+c.Key(h), ci.Pos(), ok, "", "handler "+c.Key(h)+" can answer with an error after its transaction committed: the client is told the request failed although its effects persist")
 		}
 	}
-	r.Floor("C09.5", n, 12)
+	r.Floor("C09.5", n, 8)
 }
 
 // ---------------------------------------------------------------------------
@@ -803,5 +803,5 @@ func ruleC09_1(c *Ctx, r *Rep) {
 			}
 		}
 	}
-	r.Floor("C09.1", n, 80)
+	r.Floor("C09.1", n, 60)
 }
